@@ -334,7 +334,7 @@ func TestVerifC17VcJwt(t *testing.T) {
 				}
 			}
 		}
-		n += vC17FoldLeg(t, ops, impl, only, seed, os.Getenv("VERIF_TIER"), &svld, newParty, signSuite, now)
+		n += vC17FoldLeg(t, ops, impl, only, seed, os.Getenv("VERIF_TIER"), &svld, newParty, signSuite, now, ctrl)
 	}
 	if n == 0 {
 		t.Fatal("nothing generated")
